@@ -25,7 +25,7 @@ def gen_case(r, tier, sizes):
     n = r.choice(sizes)
     if entry == "empty":
         n = 0
-    decl = r.choice(["none", "none", "chunked", "cl=", "cl=", "cl-", "cl+", "cl0"]) if entry in ("reader", "request") else r.choice(["none", "none", "chunked", "cl="])
+    decl = r.choice(["none", "none", "chunked", "cl=", "cl=", "cl-", "cl+", "cl0"]) if entry in ("reader", "request") else r.choice(["none", "none", "chunked", "cl=", "cl=", "cl-", "cl+", "cl0"])
     ops = ["add:%s:%s" % (hx(k), hx(v)) for k, v in user]
     cl = None
     if decl == "chunked":
@@ -33,6 +33,29 @@ def gen_case(r, tier, sizes):
     elif decl.startswith("cl"):
         cl = {"cl=": n, "cl-": max(0, n - r.choice([1, 2, 100])), "cl+": n + r.choice([1, 5, 1000]), "cl0": 0}[decl]
         ops.insert(r.randrange(len(ops) + 1), "scl:%d" % cl)
+    # framing state set and then taken back / replaced, under any spelling of the field name: the printer decides from the
+    # collection's cached answers but prints the stored lines, so both must follow the removal
+    if r.random() < 0.22:
+        spell = lambda nm: bytes(c ^ 0x20 if (65 <= c <= 90 or 97 <= c <= 122) and r.random() < 0.5 else c for c in nm)
+        k = r.random()
+        if k < 0.25:
+            ops.append("ste" if r.random() < 0.6 else "add:%s:%s" % (hx(spell(b"transfer-encoding")), hx(b"chunked")))
+            ops.append("rm:" + hx(spell(b"transfer-encoding")))
+        elif k < 0.45:
+            ops.append("scl:%d" % r.choice([0, 3, n, n + 7]))
+            ops.append("rm:" + hx(spell(b"content-length")))
+        elif k < 0.6:
+            ops.append("add:%s:%s" % (hx(spell(b"content-length")), hx(b"%d" % r.choice([0, 3, n + 7]))))
+            ops.append("rm:" + hx(spell(b"Content-Length")))
+        elif k < 0.75:
+            ops.append("ste")
+            ops.append("rep:%s:%s" % (hx(spell(b"transfer-encoding")), hx(r.choice([b"chunked", b"gzip, chunked"]))))
+        elif k < 0.9:
+            ops.append("scc")
+            ops.append("rm:" + hx(spell(b"connection")))
+        else:
+            ops.append("add:%s:%s" % (hx(b"x-a"), hx(b"1")))
+            ops.append("rep:%s:%s" % (hx(spell(b"x-a")), hx(b"2")))
     if r.random() < 0.15:
         ops.append("scc")
     nodate = r.random() < 0.7
